@@ -57,12 +57,74 @@ class Stats:
         self.by_backend[backend] = self.by_backend.get(backend, 0) + 1
 
 
+_VARS_CACHE = {}
+
+
+def vars_of(e):
+    """Names of the uninterpreted constants of a term (memoized on the AST id)."""
+    k = e.get_id()
+    got = _VARS_CACHE.get(k)
+    if got is not None:
+        return got[1]
+    out = set()
+    if z3.is_app(e):
+        if e.num_args() == 0:
+            if e.decl().kind() == z3.Z3_OP_UNINTERPRETED:
+                out.add(e.decl().name())
+        else:
+            for i in range(e.num_args()):
+                out |= vars_of(e.arg(i))
+    elif z3.is_quantifier(e):
+        out |= vars_of(e.body())
+    res = frozenset(out)
+    if len(_VARS_CACHE) > 400000:
+        _VARS_CACHE.clear()
+    _VARS_CACHE[k] = (e, res)  # keep e alive so the id is not reused
+    return res
+
+
+class CompositeModel:
+    """A model of the whole path condition assembled from per-component models."""
+
+    def __init__(self, pctx, base_model, base_vars):
+        self.pctx = pctx
+        self.base = base_model
+        self.base_vars = base_vars
+        self.comp_models = {}
+
+    def _model_for(self, name):
+        if self.base is not None and name in self.base_vars:
+            return self.base
+        if name not in self.pctx.parent:
+            return None
+        root = self.pctx.find(name)
+        if root not in self.comp_models:
+            r, m = self.pctx._solve(self.pctx.comp_cons.get(root, []), [])
+            self.comp_models[root] = m if r == z3.sat else None
+        return self.comp_models[root]
+
+    def eval(self, e, model_completion=True):
+        vs = vars_of(e)
+        if not vs:
+            return z3.simplify(e)
+        m = self._model_for(next(iter(vs)))
+        if m is None:
+            s0 = z3.Solver()
+            s0.check()
+            m = s0.model()
+        return m.eval(e, model_completion)
+
+
 class PathCtx:
-    """One execution path: a decision prefix that is replayed, then extended."""
+    """One execution path: a decision prefix that is replayed, then extended.
+
+    Solver queries use constraint-independence slicing: only the path-condition constraints
+    that share variables (transitively) with the query are sent to the solver.  The path
+    condition is satisfiable by construction (only feasible branches are taken), so the
+    sliced query is equisatisfiable with the full one.  Queries containing integer div/mod
+    are first tried through the exact 64-bit bit-vector translation (rvproof.bvsolve)."""
 
     def __init__(self, prefix=(), timeout_ms=10000, stats=None):
-        self.solver = z3.Solver()
-        self.solver.set("timeout", timeout_ms)
         self.timeout_ms = timeout_ms
         self.prefix = list(prefix)
         self.decisions = []  # choices actually taken on this path
@@ -75,15 +137,12 @@ class PathCtx:
         self.packcache = {}
         self.nbranches = 0
         self.notes = []
-        # exact bit-vector mirror of the path condition (used when div/mod terms are present)
         from .bvsolve import BVTranslator
 
         self.bvtr = BVTranslator()
-        self.bv_solver = z3.SolverFor("QF_BV")
-        self.bv_solver.set("timeout", timeout_ms)
-        self.bv_ok = True
-        self.bv_nside = 0
-        self.divmod_seen = False
+        # union-find over variable names; constraints per component
+        self.parent = {}
+        self.comp_cons = {}
 
     # -- naming
     def fresh_name(self, base):
@@ -111,68 +170,106 @@ class PathCtx:
         self.leaf_order.append(name)
         return SymBool(v)
 
+    # -- union-find
+    def find(self, x):
+        p = self.parent
+        if x not in p:
+            p[x] = x
+            return x
+        r = x
+        while p[r] != r:
+            r = p[r]
+        while p[x] != r:
+            p[x], x = r, p[x]
+        return r
+
+    def _union_all(self, vs):
+        it = iter(vs)
+        try:
+            r = self.find(next(it))
+        except StopIteration:
+            return None
+        for v in it:
+            r2 = self.find(v)
+            if r2 != r:
+                # merge smaller constraint list into larger
+                a = self.comp_cons.get(r, [])
+                b = self.comp_cons.pop(r2, [])
+                if len(b) > len(a):
+                    a, b = b, a
+                a.extend(b)
+                self.parent[r2] = r
+                self.comp_cons[r] = a
+        return r
+
     # -- solver plumbing
     def add(self, z):
         self.pc.append(z)
-        self.solver.add(z)
-        if self.bv_ok:
-            from .bvsolve import NotApplicable, has_divmod
+        vs = vars_of(z)
+        r = self._union_all(vs)
+        if r is None:
+            zs = z3.simplify(z)
+            if z3.is_false(zs):
+                raise PathInfeasible()
+            return
+        self.comp_cons.setdefault(r, []).append(z)
 
-            try:
-                t = self.bvtr.tr_bool(z)
-                self._bv_flush_side()
-                self.bv_solver.add(t)
-                if not self.divmod_seen and has_divmod(z):
-                    self.divmod_seen = True
-            except NotApplicable:
-                self.bv_ok = False
+    def _slice(self, terms):
+        roots = set()
+        names = set()
+        for t in terms:
+            for v in vars_of(t):
+                names.add(v)
+                if v in self.parent:
+                    roots.add(self.find(v))
+        cons = []
+        for r in roots:
+            cons.extend(self.comp_cons.get(r, []))
+        return cons, names, roots
 
-    def _bv_flush_side(self):
-        side = self.bvtr.side
-        while self.bv_nside < len(side):
-            self.bv_solver.add(side[self.bv_nside])
-            self.bv_nside += 1
-
-    def _check_bv(self, extra):
+    def _solve(self, cons, extra):
         from .bvsolve import BVModel, NotApplicable, has_divmod
 
-        if not self.bv_ok:
-            return None
-        if not self.divmod_seen and not any(has_divmod(e) for e in extra):
-            return None
-        try:
-            ts = [self.bvtr.tr_bool(e) for e in extra]
-        except NotApplicable:
-            return None
+        allc = list(cons) + list(extra)
+        if any(has_divmod(c) for c in allc):
+            try:
+                ts = [self.bvtr.tr_bool(c) for c in allc]
+                t0 = time.time()
+                s = z3.SolverFor("QF_BV")
+                s.set("timeout", self.timeout_ms)
+                for sd in self.bvtr.side:
+                    s.add(sd)
+                for t in ts:
+                    s.add(t)
+                r = s.check()
+                self.stats.add("z3-bv", time.time() - t0)
+                if r != z3.unknown:
+                    return r, (BVModel(self.bvtr, s.model()) if r == z3.sat else None)
+            except NotApplicable:
+                pass
         t0 = time.time()
-        self._bv_flush_side()
-        self.bv_solver.push()
-        try:
-            for t in ts:
-                self.bv_solver.add(t)
-            r = self.bv_solver.check()
-            m = BVModel(self.bvtr, self.bv_solver.model()) if r == z3.sat else None
-        finally:
-            self.bv_solver.pop()
-        self.stats.add("z3-bv", time.time() - t0)
-        if r == z3.unknown:
-            return None
+        s = z3.Solver()
+        s.set("timeout", self.timeout_ms)
+        for c in allc:
+            s.add(c)
+        r = s.check()
+        m = s.model() if r == z3.sat else None
+        self.stats.add("z3", time.time() - t0)
         return r, m
 
-    def _check(self, *extra):
-        got = self._check_bv(extra)
-        if got is not None:
-            return got
-        t0 = time.time()
-        self.solver.push()
-        try:
-            for e in extra:
-                self.solver.add(e)
-            r = self.solver.check()
-            m = self.solver.model() if r == z3.sat else None
-        finally:
-            self.solver.pop()
-        self.stats.add("z3", time.time() - t0)
+    def _check(self, *extra, focus=(), full_model=False):
+        """Satisfiability of (path condition AND extra).  Without extra/focus the whole path
+        condition is meant (used only for model extraction)."""
+        terms = list(extra) + list(focus)
+        if not terms:
+            return z3.sat, CompositeModel(self, None, set())
+        cons, names, roots = self._slice(terms)
+        r, m = self._solve(cons, extra)
+        if r == z3.sat:
+            covered = set(names)
+            for c in cons:
+                covered |= vars_of(c)
+            m = CompositeModel(self, m, covered)
         return r, m
 
     def assume(self, cond):
@@ -182,7 +279,7 @@ class PathCtx:
             return
         z = as_bool_z(cond)
         self.add(z)
-        r, _ = self._check()
+        r, _ = self._check(focus=[z])
         if r == z3.unsat:
             raise PathInfeasible()
 
@@ -254,7 +351,7 @@ class PathCtx:
     def unique_value(self, z, small=128):
         """Concrete integer for z: the single value the path condition allows, or - when at most
         `small` values are possible - a complete case split over them."""
-        r, m = self._check()
+        r, m = self._check(focus=[z])
         if r != z3.sat:
             raise Unsupported("cannot concretize: path condition not sat")
         i = len(self.decisions)
@@ -285,13 +382,13 @@ class PathCtx:
 
     def prove(self, z, timeout_ms=None):
         """Is z valid under the path condition?  -> ('valid'|'refuted'|'unknown', model)"""
+        old = self.timeout_ms
         if timeout_ms:
-            self.solver.set("timeout", timeout_ms)
+            self.timeout_ms = timeout_ms
         try:
             r, m = self._check(z3.Not(z))
         finally:
-            if timeout_ms:
-                self.solver.set("timeout", self.timeout_ms)
+            self.timeout_ms = old
         if r == z3.unsat:
             return "valid", None
         if r == z3.sat:
